@@ -142,6 +142,7 @@ def main(run):
             run.violation(f'derive|{path}', f'{adt["file"]}:{adt["line"]} {path} does not derive {sorted(missing)}: eq/cmp/hash of the decomposition would not be field-wise')
     # Borrow hash shapes
     S = keys.Shapes(P, ctx.owned)
+    SO = keys.Shapes(P, ctx.owned, 'cmp::Ord', 'cmp', erase_option=True)
     lib = set(lang.TYPE_TABLE) | set(ctx.owned) | {'uri::scheme::data::DataUrl', 'uri::scheme::data::DataUrlBuf'}
     for im in P.impls:
         tp = im['trait_path'] or ''
@@ -156,7 +157,12 @@ def main(run):
         run.count('borrow_pairs')
         sa, sb = S.of_type(A), S.of_type(B)
         if any(x[0] == 'nohash' for x in (sa, sb)):
-            continue   # no Hash on one side: cannot be a HashMap key through this Borrow
+            sa = sb = ('skip',)   # no Hash on one side: cannot be a HashMap key through this Borrow
+        oa, ob = SO.of_type(A), SO.of_type(B)
+        if not any(x[0] == 'nohash' for x in (oa, ob)) and oa != ob:
+            d = keys.first_diff(oa, ob)
+            run.violation(f'borrow-ord|{A}|{B}', f'{im["file"]}:{im["line"]} impl Borrow<{B}> for {A}: cmp({A}) and cmp(borrowed {B}) compare their components in a different order / shape '
+                          f'({d}) — a BTreeMap/BTreeSet keyed by {A} cannot be searched through &{B}', {'shape_a': keys.show_shape(oa), 'shape_b': keys.show_shape(ob)})
         if sa != sb:
             d = keys.first_diff(sa, sb)
             run.violation(f'borrow-hash|{A}|{B}', f'{im["file"]}:{im["line"]} impl Borrow<{B}> for {A}: hash({A}) and hash(borrowed {B}) feed different value shapes to the hasher '
